@@ -369,32 +369,49 @@ func c30GenMetric(t *rapid.T, name string) c30Metric {
 func c30GenPol() *rapid.Generator[c30Pol] {
 	return rapid.Custom(func(t *rapid.T) c30Pol {
 		c := c30Pol{Seed: rapid.Uint64().Draw(t, "seed"), App: rapid.SampledFrom([]string{"statshouse-api", "sh"}).Draw(t, "app")}
-		ng := rapid.IntRange(0, 6).Draw(t, "ngrants")
+		oldName := rapid.SampledFrom(c30Names).Draw(t, "old")
+		newName := oldName
+		if rapid.IntRange(0, 2).Draw(t, "rename") == 0 {
+			newName = rapid.SampledFrom(c30Names).Draw(t, "new")
+		}
+		ng := rapid.IntRange(0, 5).Draw(t, "ngrants")
 		for i := 0; i < ng; i++ {
 			var g c30Grant
-			switch k := rapid.IntRange(0, 19).Draw(t, "grant"); {
-			case k == 0:
-				g.Kind = "admin"
-			case k == 1:
-				g.Kind = "developer"
-			case k < 5:
+			switch k := rapid.IntRange(0, 19).Draw(t, "grant"); { // rapid favours small values: the rare kinds are the large ones
+			case k < 3:
 				g.Kind = "view_default"
-			case k < 8:
+			case k < 6:
 				g.Kind = "edit_default"
-			case k < 10:
+			case k < 8:
 				g = c30Grant{"view_metric", rapid.SampledFrom(c30Names).Draw(t, "name")}
-			case k < 13:
+			case k < 11:
 				g = c30Grant{"edit_metric", rapid.SampledFrom(c30Names).Draw(t, "name")}
-			case k < 15:
+			case k < 13:
 				g = c30Grant{"view_prefix", rapid.SampledFrom(c30Prefixes).Draw(t, "prefix")}
-			case k < 17:
+			case k < 15:
 				g = c30Grant{"edit_prefix", rapid.SampledFrom(c30Prefixes).Draw(t, "prefix")}
-			case k < 18:
+			case k < 16:
 				g = c30Grant{"view_namespace", rapid.SampledFrom(c30Namespaces).Draw(t, "ns")}
-			default:
+			case k < 18:
 				g = c30Grant{"edit_namespace", rapid.SampledFrom(c30Namespaces).Draw(t, "ns")}
+			case k < 19:
+				g.Kind = "developer"
+			default:
+				g.Kind = "admin"
 			}
 			c.Grants = append(c.Grants, g)
+		}
+		// most cases: make sure the edit is covered by rights of one kind, so that the attribute rules decide
+		switch rapid.IntRange(0, 5).Draw(t, "cover") {
+		case 0, 1:
+			c.Grants = append(c.Grants, c30Grant{"edit_metric", oldName}, c30Grant{"edit_metric", newName})
+		case 2:
+			for _, n := range []string{oldName, newName} {
+				cut := rapid.IntRange(1, len(n)).Draw(t, "cut")
+				c.Grants = append(c.Grants, c30Grant{"edit_prefix", n[:cut]})
+			}
+		case 3:
+			c.Grants = append(c.Grants, c30Grant{Kind: "edit_default"})
 		}
 		nd := rapid.IntRange(0, 3).Draw(t, "ndecoys")
 		for i := 0; i < nd; i++ {
@@ -403,13 +420,10 @@ func c30GenPol() *rapid.Generator[c30Pol] {
 			c.Decoys = append(c.Decoys, pre+bit)
 		}
 		c.Protected = rapid.SliceOfNDistinct(rapid.SampledFrom(c30Protected), 0, 3, func(s string) string { return s }).Draw(t, "protected")
-		oldName := rapid.SampledFrom(c30Names).Draw(t, "old")
 		c.Old = c30GenMetric(t, oldName)
 		c.New = c.Old
 		c.New.Raw = append([]string(nil), c.Old.Raw...)
-		if rapid.IntRange(0, 2).Draw(t, "rename") == 0 {
-			c.New.Name = rapid.SampledFrom(c30Names).Draw(t, "new")
-		}
+		c.New.Name = newName
 		nch := rapid.SampledFrom([]int{0, 0, 1, 1, 1, 2}).Draw(t, "nchanges")
 		for i := 0; i < nch; i++ {
 			switch rapid.IntRange(0, 9).Draw(t, "change") {
